@@ -137,7 +137,7 @@ def qft_product_test(run, rng, count):
 
 
 def gate_matrix_obligations(run):
-    """the matrices used by the all-n theorem qft_ok_state_vector (C20/ProofsPS.v gate_mat) are the matrices the
+    """the matrices used by the all-n theorems qft_ok / qft_ok_state_vector (C20 gate_mat / to_gapp) are the matrices the
     real code builds:  H = h[[1,1],[1,-1]] (h = sqrt2/2),  CU1(pi/2^k) = diag(1,1,1,e^{i pi/2^k}),  SWAP"""
     from fractions import Fraction
     from qibo import gates
@@ -700,10 +700,11 @@ def main(run):
                 run.axioms.add(m.group(1))
     run.notes["print_assumptions"] = pa
     run.not_proved += [
-        "qft_ok as equality of the PRODUCT matrix circ_mat(QFT n) with the DFT matrix for all n: NOT proved (needs (A B) v = A (B v) for the "
-        "list matrices of Base/Mat.v). PROVED for all n >= 1: qft_ok_state_vector / qft_ok_complex -- applying the gate matrices (embed, mmul) "
-        "of the ladder one after the other to every basis column gives the DFT column -- and pstep_rules_agree_with_matrices; the product "
-        "matrix itself is proved equal to the DFT matrix for n = 1..5 (6 thorough) (bounded instances, TrigMat)",
+        "qft_ok is PROVED for all n >= 1 (qft_ok, qft_ok_complex_matrix: every column of the product matrix circ_mat(QFT n, with swaps) of "
+        "Base/Mat.v is the DFT column; pstep_rules_agree_with_matrices; matrix associativity proved). Remaining outside the static proof: "
+        "the real H / CU1(pi/2^k) / SWAP matrices equal the matrices of to_gapp -- proved per run by TrigMat obligations for k <= 6, compared "
+        "numerically for k = 7..12; the with_swaps=False variant at matrix level for all n is NOT proved (product-state level: "
+        "qft_product_state; operator level: bounded instances n <= 5/6)",
         "ehrlich_enumerates for all n: NOT proved; proved by vm_compute for every 1 <= k < n <= 10 (bound stated in the theorem)",
         "unary_tree_ok / hw_encoder_ok / binary_encoder amplitudes for all data: NOT proved (angles are acos/atan2 of data); "
         "proved: RBS chains act as 2x2 rotations on unary amplitudes, the diagonal chain and the recursive tree loader load x_k/N_0 (ring level, all n, no division: zero blocks included; unary_diagonal_ok_ring, unary_tree_ok_ring); NOT proved: the breadth-first RBS gate list computes the recursive tree form; angle formulas (acos/atan2) satisfy the load equations; both are covered by the data-level tests incl. all 0/1 patterns of length 4 and 8",
